@@ -6,6 +6,8 @@ import e2e_common as E
 
 def run(ctx):
     traces = ctx.e2e(E.plan(ctx, [("attack", 12), ("replay", 4), ("lossy", 5), ("clean", 2)]))
+    # ... plus every placement of one (thorough: two) fault(s) on the first datagrams of either direction, enumerated by TLC
+    traces.update(ctx.e2e_sched(8, 1 if ctx.quick else 2))
     # every packet that reaches frame processing is a genuine, not yet processed packet of the peer with exactly
     # the cleartext the peer produced; ACKs name only such packets; no forged datagram closes the connection
     ctx.validate_families(traces, "Trace_PacketFlow", E.FLOW_KINDS)
